@@ -22,6 +22,7 @@ Implementation: Regex-based line-by-line scanning with docstring-aware state tra
 import re
 from pathlib import Path
 
+from src.linter_config.directive_markers import source_lines
 from src.linters.lazy_ignores.directive_utils import create_directive
 from src.linters.lazy_ignores.types import IgnoreDirective, IgnoreType
 
@@ -165,7 +166,7 @@ class PythonIgnoreDetector:
         quotes = ['"""', "'''"]
         scannable: list[tuple[int, str]] = []
 
-        for line_num, line in enumerate(code.splitlines(), start=1):
+        for line_num, line in enumerate(source_lines(code), start=1):
             was_in_docstring = in_docstring[0] or in_docstring[1]
             self._update_docstring_state(line, quotes, in_docstring)
             if not was_in_docstring:
